@@ -4,6 +4,7 @@ package props
 // (DESIGN.md section 3.1).
 
 import (
+	mxj "github.com/clbanning/mxj/v2"
 	"reflect"
 	"sort"
 
@@ -569,4 +570,15 @@ func boostDeepLIL(t *rapid.T) (map[string]interface{}, []Step, string) {
 		steps = []Step{{k1, -1}, {"b", -1}, {k, -1}}
 	}
 	return root, steps, k
+}
+
+// staleAfterChange: a query is a function of the receiver's CURRENT value. The subject Map object is changed in place
+// (changeInPlace) and queried again; the answer must be that of a freshly built equal Map.
+func staleAfterChange(subject map[string]interface{}, what string, q func(mxj.Map) string) *Failure {
+	changeInPlace(subject)
+	fresh := copyMap(subject)
+	if a, b := q(mxj.Map(subject)), q(mxj.Map(fresh)); a != b {
+		return failf("stale-after-in-place-change", "%s on a Map that was changed in place since the previous call:\n got  %s\n a freshly built equal Map gives %s\n map %s", what, a, b, canon(fresh))
+	}
+	return nil
 }
